@@ -33,6 +33,9 @@ pub enum Strategy {
     Pct { change: Vec<u64> },
     /// stay on the current thread with probability (den-1)/den
     Burst { den: usize },
+    /// preempt preferably right after a successful write of the running thread (between two
+    /// related updates), otherwise stay with probability (den-1)/den
+    AfterWrite { den: usize },
     /// `tid` is descheduled from step `from` until all others are done (or `len` steps passed)
     Stall { tid: usize, from: u64, len: u64 },
     /// follow the recorded schedule
@@ -165,6 +168,9 @@ pub struct World {
     /// own atomic steps of the current call per thread, and their cap
     pub call_steps: Vec<u64>,
     pub call_cap: u64,
+    /// did the last atomic operation of each thread change memory?
+    pub last_write: Vec<bool>,
+    pub prev_load: Vec<bool>,
     pub sched_log: Vec<u8>,
     pub replay: Vec<u8>,
     pub replay_pos: usize,
@@ -218,6 +224,8 @@ impl World {
             step_cap: 200_000,
             call_steps: vec![0; n],
             call_cap: 20_000,
+            last_write: vec![false; n],
+            prev_load: vec![false; n],
             sched_log: Vec::new(),
             replay: Vec::new(),
             replay_pos: 0,
@@ -325,6 +333,16 @@ impl World {
                         alive[self.rng.below(alive.len())]
                     }
                 }
+                Strategy::AfterWrite { den } => {
+                    let wrote = cur_ok && self.last_write.get(cur).copied().unwrap_or(false);
+                    let switch = if wrote { self.rng.chance(1, 2) } else { self.rng.chance(1, *den) };
+                    if cur_ok && !switch {
+                        cur
+                    } else {
+                        let others: Vec<usize> = alive.iter().copied().filter(|&t| t != cur).collect();
+                        if others.is_empty() { cur } else { others[self.rng.below(others.len())] }
+                    }
+                }
                 Strategy::Pct { change } => {
                     if cur_ok && change.contains(&self.steps) {
                         // demote the running thread below everybody
@@ -366,6 +384,13 @@ impl World {
     /// Book-keeping of one hooked atomic step of thread `tid` (before it executes).
     fn on_step(&mut self, tid: usize, op: Op, addr: usize, _size: usize) {
         self.steps += 1;
+        if tid < self.n {
+            // `last_write` describes the previous, completed operation of the thread
+            if self.prev_load[tid] {
+                self.last_write[tid] = false;
+            }
+            self.prev_load[tid] = matches!(op, Op::Load | Op::UpdateLoad);
+        }
         if tid < self.n && self.cur_call[tid].is_some() {
             self.call_steps[tid] += 1;
             if self.call_steps[tid] > self.call_cap && self.aborted.is_none() {
@@ -438,6 +463,9 @@ impl World {
     fn on_after(&mut self, tid: usize, op: Op, addr: usize, size: usize, success: bool) {
         let (region, off, _) = self.classify(addr);
         self.trace_hash.add(success as u64);
+        if tid < self.n {
+            self.last_write[tid] = success;
+        }
         if !success {
             if matches!(op, Op::Cas | Op::CasWeak | Op::UpdateCas) {
                 match region {
